@@ -31,5 +31,5 @@ def run(tier, seed):
                         group=2 if q else 1,
                         extra_cov={"workloads": ["small", "large", "huge", "mt", "mix", "giant", "relay"], "arena_configs": [a for a, _ in ARENAS],
                                    "rounds": [4] if q else [6, 12, 24]},
-                        assumptions=["resident memory is the process RSS from /proc/self/statm (harness buffers are made resident up front); a tolerance of 96 pages per round is allowed",
+                        assumptions=["resident memory is the process RSS from /proc/self/statm (harness buffers are made resident up front); a tolerance of 96 pages plus 1/64 of the previous value per round is allowed",
                                      "allocator tables recognised by exact size (segment-map part) are exempt from AllReleased"])
